@@ -152,8 +152,8 @@ func AppendFloat(b []byte, f float64, prec int) []byte {
 	} else {
 		f *= math.Pow10(prec)
 	}
-	if f < math.Pow10(digits) {
-		// one digit short: the exponent estimated from the binary exponent can be one too high and the scaling can round down
+	for 0.0 < f && f < math.Pow10(digits) {
+		// digits short: the exponent estimated from the binary exponent can be too high (by one, more for subnormal numbers) and the scaling can round down
 		f *= 10.0
 		prec++
 	}
